@@ -1,4 +1,26 @@
-//! C26 — recycle bin lifecycle (work in progress: server layer + script mode).
+//! C26 — recycle bin lifecycle holds.
+//!
+//! Drives a real server (own `Backend` + `QueryServer::new` + `initialise_helper` at a fixed
+//! clock, so that every later clock reading is the harness') and the Lean model (`km_c26`) with
+//! the same histories: one committed write transaction per step at an explicit clock reading —
+//! create person / group / client certificate (the dependent: `refers` to a person), member add /
+//! remove, a normal modify, `internal_delete`, `revive_recycled` as `admin` (recycle-bin
+//! administrator, through `ReviveRecycledEvent::from_parts`), `purge_recycled`, `purge_tombstones`
+//! (committed as `actors/internal.rs` commits them).
+//!
+//! After **every** step the committed state is read back (state, last_modified_cid, member,
+//! memberof, directmemberof, recycled_directmemberof, refers, cascade_deleted of every entry of the
+//! history's uuid slot; a normal internal search, a normal search as admin, the recycle-bin search
+//! as admin) and
+//! * compared with the model's prediction (`impl-vs-model`; after the first disagreement of a
+//!   history, or once the model answers `unsupported` (nested groups), only the oracle goes on);
+//! * judged by the oracle written from the property text (`impl-vs-oracle`), see `Oracle::check`.
+//!
+//! Failure classes: `D16:group-revive-members-not-restored` (a link member(g) ∋ y without
+//! directmemberof(y) ∋ g left by a revive of g, or a membership missing after a revive because the
+//! link was already one-sided at deletion) is the known finding; every other class is a violation.
+//! `--script "<t> <op>;..." [driver]` prints a history's trace (probing), `--replay FILE` re-runs
+//! the history stored in a failure's `input.steps`.
 use hlib::*;
 use kanidmd_lib::be::{Backend, BackendConfig};
 use kanidmd_lib::entry::{Entry, EntryInit, EntryNew, EntrySealedCommitted};
@@ -404,11 +426,9 @@ struct Track {
     /// made it a tombstone; later requests are timed by the highest clock reading so far
     /// (their stamp is at most SLACK later)
     deleted_now: u64,
-    /// live groups listing the entry just before its deletion
-    groups_at_delete: BTreeSet<u8>,
-    /// those of them that were never deleted since
+    /// live groups listing the entry just before its deletion that were never deleted since
     groups_intact: BTreeSet<u8>,
-    /// groups of `groups_at_delete` whose link to the entry was already one-sided (D16) then
+    /// those of them whose link to the entry was already one-sided (D16) at its deletion
     broken_at_delete: BTreeSet<u8>,
     /// entries that referred to this one and were deleted by the same request
     dependents: BTreeSet<u8>,
@@ -436,15 +456,6 @@ struct Oracle {
     reaped: u32,
     revive_refused_tomb: u32,
     boundary_purges: u32,
-}
-
-fn op_ids(op: &Op) -> Vec<u8> {
-    match op {
-        Op::Cp(i) | Op::Cg(i, _) | Op::Cc(i, _) | Op::Touch(i) | Op::Rev(i) => vec![*i],
-        Op::Add(g, _) | Op::Rem(g, _) => vec![*g],
-        Op::Del(ids) => ids.clone(),
-        Op::PurgeRc | Op::PurgeTs => vec![],
-    }
 }
 
 impl Oracle {
@@ -535,7 +546,7 @@ impl Oracle {
                     let dependents = deleted_now.iter().copied().filter(|c| *c != id && prev.entries.get(c).and_then(|e| e.refers) == Some(id)).collect();
                     self.track.insert(
                         id,
-                        Track { deleted_now: ct, groups_intact: groups.clone(), groups_at_delete: groups, broken_at_delete: broken, dependents, referent, referent_intact: true, tomb_now: 0 },
+                        Track { deleted_now: ct, groups_intact: groups, broken_at_delete: broken, dependents, referent, referent_intact: true, tomb_now: 0 },
                     );
                 }
                 ('R', 'L') => {
